@@ -449,6 +449,76 @@ def run_flags_supported(task):
 
 # ------------------------------------------------------------------ replay
 
+
+def run_remap_chain(task):
+    """Several -E pairs at once, also pairs that chain or form a cycle (h=c with c=h, py=py): the lookup ends,
+    does not panic, and a name is remapped ONCE (the value of a pair is a grammar key, not another name to
+    look up).  Concrete names and pairs; real MIR of parse_file / parser_for_file_path / try_parser_for_extension."""
+    fname, pairs = task
+    prog = driver.load_program()
+    stats = PathStats()
+    table, names, _st = real_table(prog)
+    f_pf = prog.find_fn('parse_file')
+    out = dict(violations=[], samples=[], obligations=0, cover={}, panic_paths=0)
+    holder = {}
+
+    def run_path(I):
+        holder['parsed_with'] = []
+
+        def parse_stub(I2, a, ci, dt):
+            g = I2.deref_value(a[0])
+            while isinstance(g, Ref):
+                g = I2.deref_value(g)
+            holder['parsed_with'].append(g.f[0])
+            return Ok(VecVal(()))
+        I.stubs['FileSystem::read_to_string'] = lambda I2, a, ci, dt: Ok(new_string(I2, b'# <block name="n">\nx\n# </block>\n'))
+        I.stubs['BlocksParser::parse'] = parse_stub
+        I.max_steps = min(getattr(I, 'max_steps', 200000), 200000)
+        extra = MapVal([Tuple(new_string(I, k), new_string(I, v)) for k, v in pairs], 'HashMap')
+        filt = Enum('BlocksFilter', prog.variant_index('BlocksFilter', 'All'), 'All')
+        return I.call_fn(f_pf, [SStr(tuple(fname), I.new_alloc(), 0), Ref(Cell(VecVal(())), ()), filt,
+                                Ref(Cell(Struct('FakeFS', ())), ()), Ref(Cell(table), ()), Ref(Cell(extra), ())])
+
+    def add(role, summary):
+        out['obligations'] += 1
+        out['violations'].append(dict(role=role, summary=summary, path=fname.decode(), chain=True,
+                                      remap=[[k.decode(), v.decode()] for k, v in pairs], got=holder.get('parsed_with', [])[:1]))
+    ext = fname.rsplit(b'.', 1)[-1]
+    once = dict(pairs).get(ext, ext)
+    want = names.get(once)
+    try:
+        for I, kind, val in explore(prog, models.M, run_path, stats=stats, max_paths=2000):
+            out['obligations'] += 1
+            if kind == 'panic':
+                out['panic_paths'] += 1
+                add('panic', 'panic: %s' % val.msg[:120])
+                continue
+            got = holder['parsed_with'][0] if holder['parsed_with'] else None
+            if got != want:
+                add('remap-followed-more-than-once', '%s with %s: grammar %s, one remap step gives %s' % (fname.decode(), [(k.decode(), v.decode()) for k, v in pairs], got, want))
+            out['cover']['remap chains'] = out['cover'].get('remap chains', 0) + 1
+    except Truncated as e:
+        add('extension-lookup-does-not-end', '%s with %s: %s' % (fname.decode(), [(k.decode(), v.decode()) for k, v in pairs], e))
+        out['cover']['remap chains'] = out['cover'].get('remap chains', 0) + 1
+    out.update(Agg(PROP, 'x').stats_from(stats))
+    return out
+
+
+def confirm_chain(binary, v, idx, names):
+    obs = observe_name(binary, v['path'], [tuple(p) for p in v['remap']])
+    ext = v['path'].rsplit('.', 1)[-1]
+    once = dict((k, x) for k, x in v['remap']).get(ext, ext)
+    want = STYLES.get(names.get(once.encode()), set()) if names.get(once.encode()) else set()
+    v['observed'] = obs
+    v['expected'] = sorted(want)
+    v['confirmed'] = bool(obs.get('hang')) or set(obs['styles']) != set(want)
+    if v['confirmed']:
+        v['replay'] = save_replay(PROP, 'chain-%s-%d' % (v['role'], idx), {v['path']: b'# <block name="hash">\n# </block>\n// <block name="slash">\n// </block>\n'},
+                                  ' '.join('-E %s=%s' % (k, x) for k, x in v['remap']) + " list '**'",
+                                  'expected the run to end and to use the grammar whose comment styles are %s; %s' % (sorted(want), v['summary']), v)
+    return v
+
+
 def observe_name(binary, path, remap):
     """Real binary: which grammar handles `path`?  Probe file holds a tag in each comment style."""
     probes = {
@@ -462,9 +532,14 @@ def observe_name(binary, path, remap):
     err = None
     for style, text in probes.items():
         args = ['list']
-        if remap:
+        if remap and isinstance(remap[0], (list, tuple)):
+            for k_, v_ in remap:
+                args = ['-E', '%s=%s' % (k_, v_)] + args
+        elif remap:
             args = ['-E', '%s=%s' % (remap[0], remap[1])] + args
         r = run_scan(binary, {path: text}, ['**'], extra_args=args)
+        if r['code'] == 'timeout':
+            return dict(styles=[], error='timeout', hang=True)
         if r['code'] != 0:
             err = r['stderr'][-200:]
             continue
@@ -581,6 +656,10 @@ def main(tier):
     pairs = [(b'go.mod', b'deps.mod'), (b'deps.mod', b'go.mod'), (b'a.d.ts', b'b.s'), (b'Makefile', b'x.Makefile', b'y.mk'),
              (b'x.work', b'go.work', b'd/go.work'), (b'a.py', b'b.py', b'c.txt'), (b'go.sum', b'x.sum', b'go.sum.bak')]
     results += pmap(run_files, [(p_, False) for p_ in pairs])
+    # several -E pairs that chain or form a cycle: the lookup ends and remaps once
+    chains = [(b'a.h', ((b'h', b'c'), (b'c', b'h'))), (b'a.c', ((b'h', b'c'), (b'c', b'h'))), (b'a.py', ((b'py', b'py'),)),
+              (b'a.foo', ((b'foo', b'py'), (b'py', b'sql'))), (b'a.py', ((b'foo', b'py'), (b'py', b'sql')))]
+    results += pmap(run_remap_chain, chains, chunksize=1)
     for r in results:
         agg.add(r)
     # the registered table against the conventional language of each suffix
@@ -609,7 +688,9 @@ def main(tier):
             if v.get('table'):
                 got = v
                 break
-            if 'files' in v and 'path' not in v:
+            if v.get('chain'):
+                confirm_chain(binary, v, i, names)
+            elif 'files' in v and 'path' not in v:
                 confirm_files(binary, v, i, names)
             else:
                 confirm(binary, v, i, names)
@@ -651,7 +732,7 @@ def main(tier):
                      'FileSystem::read_to_string and BlocksParser::parse are recording stubs; paths ending in / are outside the claim',
                      'clap itself is not encoded: parse_extensions and Args::validate are driven directly'],
         stubs=['<lang>::parser constructors', 'FileSystem::read_to_string', 'BlocksParser::parse'],
-        must_cover=['chosen', 'skipped', 'several files', 'no-equals', 'unsupported-rejected', 'supported-accepted'],
+        must_cover=['chosen', 'skipped', 'several files', 'remap chains', 'no-equals', 'unsupported-rejected', 'supported-accepted'],
         explanation='reference suffix rule as a Z3 formula over the path bytes; per path: PC∧expect(g)∧chosen≠g, PC∧expect(none)∧chosen')
 
 
